@@ -123,7 +123,8 @@ class Library:
             if isinstance(v, ix.CScal):
                 return False
             if T is NDARRAY:
-                return (isinstance(v, RMat) and v.storage == "dense") or isinstance(v, (QMat, HMat, F4))
+                from .values import HSub, RVec
+                return (isinstance(v, RMat) and v.storage == "dense") or isinstance(v, (QMat, HMat, F4, HSub, RVec))
             if T is CSR:
                 return isinstance(v, RMat) and v.storage == "csr"
             if T is NPFLOATING:
@@ -424,7 +425,13 @@ class Library:
                     for t, it in enumerate(items):
                         res = ix.ite(j == pl + t, it, res)
                     return res
-                return ix.IArr.from_fn([pl + len(items)], fn)
+                c_ = cur()
+                c_.suppress = getattr(c_, "suppress", 0) + 1        # the probe index is not a program index
+                try:
+                    probe = ent(SInt.var(c_.fresh_name("probe")))
+                finally:
+                    c_.suppress -= 1
+                return ix.IArr.from_fn([pl + len(items)], fn, quat=isinstance(probe, ix.QScal))
             if isinstance(v, ix.IArr):
                 return v.copy()
             if isinstance(v, (list, tuple)):
@@ -494,25 +501,35 @@ class Library:
             parts = list(parts)
             if all(isinstance(p, ix.IArr) for p in parts) and all(p.ndim == 1 for p in parts) and axis == 0:
                 lens = [p.vshape[0] for p in parts]
-                if not all(isinstance(l, int) for l in lens):
-                    raise OutOfReach("concatenate of symbolic-length vectors")
                 snaps = [p._snapshot() for p in parts]
-                table = []
-                for k, l in enumerate(lens):
-                    for i in range(l):
-                        table.append((k, i))
+                offs = [0]
+                for l in lens:
+                    offs.append(offs[-1] + l)
+                if all(isinstance(l, int) for l in lens):
+                    table = []
+                    for k, l in enumerate(lens):
+                        for i in range(l):
+                            table.append((k, i))
 
-                def fn(vi):
-                    i = vi[0]
-                    if isinstance(i, int):
-                        k, j = table[i]
-                        return snaps[k]((j,))
-                    res = None
-                    for pos, (k, j) in reversed(list(enumerate(table))):
-                        x = snaps[k]((j,))
-                        res = x if res is None else ix.ite(i == pos, x, res)
-                    return res
-                return ix.IArr.from_fn([sum(lens)], fn, quat=parts[0].quat)
+                    def fn(vi):
+                        i = vi[0]
+                        if isinstance(i, int):
+                            k, j = table[i]
+                            return snaps[k]((j,))
+                        res = None
+                        for pos, (k, j) in reversed(list(enumerate(table))):
+                            x = snaps[k]((j,))
+                            res = x if res is None else ix.ite(i == pos, x, res)
+                        return res
+                else:
+                    def fn(vi):
+                        i = vi[0]
+                        res = None
+                        for k in range(len(parts) - 1, -1, -1):
+                            x = snaps[k]((i - offs[k],))
+                            res = x if res is None else ix.ite(i < offs[k + 1], x, res)
+                        return res
+                return ix.IArr.from_fn([offs[-1]], fn, quat=parts[0].quat)
             raise OutOfReach("np.concatenate form")
 
         def np_real(a):
@@ -687,6 +704,15 @@ class Library:
                 return ix.zeros(shape, quat=isq, cplx=isc)
             if what == "eye":
                 return ix.eye(shape[0], shape[1], quat=isq)
+        if len(shape) == 1 and self.mode == "nc" and (dtype is None or dtype is float or dtype == F64):
+            from .values import RVec
+            return RVec(shape[0])
+        if len(shape) == 2 and dtype == QUAT and getattr(self, "qmode", "Q") == "H":
+            r, c = shape
+            if what == "zeros":
+                return HMat(NC.zero(r, c))
+            ncm.dims_equal(r, c, "eye.square")
+            return HMat(NC.eye(r))
         if len(shape) == 2:
             r, c = shape
             if dtype is None or dtype is float or dtype == F64 or (isinstance(dtype, _TypeAndCall) and dtype.t is float):
